@@ -195,4 +195,4 @@ SUBS = {"transpose": Sub(predicate, strategy=cases)}
 def jobs(tier):
     if tier == "quick":
         return [{"sub": "transpose", "n": 400, "shard": i, "nshards": 16} for i in range(16)]
-    return [{"sub": "transpose", "n": 6000, "shard": i, "nshards": 16} for i in range(16)]
+    return [{"sub": "transpose", "n": 16000, "shard": i, "nshards": 16} for i in range(16)]
